@@ -188,11 +188,8 @@ func c06Narrowing(c *Ctx) {
 				} else if sf := enc.Common().StaticCallee(); sf != nil {
 					what = "nested " + shortName(sf) + "() encoding"
 				}
-				key = fmt.Sprintf("%s: %d-bit length of a %s", shortName(f), bits, what)
-				ord[key]++
-				if ord[key] > 1 {
-					key = fmt.Sprintf("%s #%d", key, ord[key])
-				}
+				// identified by what is measured, not by the function hosting the write (the write may move into a helper)
+				key = fmt.Sprintf("%d-bit length of a %s", bits, what)
 			}
 			if enc == nil {
 				r.OK("C06-K5", key, c.P.ipos(cl), "raw field bytes: a decoded field is never longer than the datagram it was read from", sx.Of(x).String())
@@ -200,11 +197,11 @@ func c06Narrowing(c *Ctx) {
 			}
 			for _, cal := range c.P.Callees(enc) {
 				if why := expanding(cal, f); why != "" {
-					r.Violation("C06-K5", key, c.P.ipos(cl), fmt.Sprintf("the nested encoding can be longer than its wire form (%s reached through %s): for a large accepted datagram the %d-bit length is truncated by the narrowing conversion and the re-encoded bytes no longer decode", why, shortName(cal), bits))
+					r.Violation("C06-K5", key+" that can reach the padding encoder "+strings.SplitN(why, " pads", 2)[0], c.P.ipos(cl), fmt.Sprintf("in %s: the nested encoding can be longer than its wire form (%s reached through %s): for a large accepted datagram the %d-bit length is truncated by the narrowing conversion and the re-encoded bytes no longer decode", why, shortName(cal), bits))
 					return
 				}
 			}
-			r.OK("C06-K5", key, c.P.ipos(cl), "nested encoders are length-preserving (no padding in their closure)", "")
+			r.OK("C06-K5", shortName(f)+": "+key, c.P.ipos(cl), "nested encoders are length-preserving (no padding in their closure)", "")
 		})
 	}
 	r.Count("C06-K5-length-fields", n)
